@@ -99,3 +99,51 @@ if __name__ == "__main__":
         if not ok:
             print("BAD", r)
     print("killed", sum(1 for r in out if r.get("killed")), "of", len(out))
+
+
+def signal_case(sig):
+    """No scheduler fault: the upstream job x1 receives `sig` while its body runs; x2 depends on it, x3 does not.
+    Returns the final states and the body counts"""
+    import signal as _signal
+
+    root = Path(tempfile.mkdtemp(prefix="xvsg-", dir=os.environ.get("XV_SCRATCH_DISK", str(VERIF / ".work"))))
+    try:
+        wd, gates, log, cf = root / "ws", root / "gates", root / "body.ndjson", root / "count.json"
+        gates.mkdir()
+        env = dict(os.environ, PYTHONPATH=f"{REPO_SRC}:{VERIF}")
+        env.pop("XPM_VERIF", None)
+        p = subprocess.Popen(["/venv/bin/python", "-W", "ignore", str(PROG), str(wd), str(gates), str(log), "0", str(cf)], env=env,
+                             stdout=subprocess.PIPE, stderr=subprocess.DEVNULL, text=True, cwd="/")
+        pid = None
+        t0 = time.time()
+        while time.time() - t0 < 60 and pid is None:
+            if log.exists():
+                for l in log.read_text().splitlines():
+                    e = json.loads(l)
+                    if e["e"] == "begin" and e["p"] == "x1":
+                        pid = e["pid"]
+            time.sleep(0.05)
+        if pid is None:
+            p.kill()
+            return {"machinery": True, "problem": "the upstream job never began"}
+        (gates / "gate.x3").touch()
+        time.sleep(0.3)
+        try:
+            os.kill(pid, getattr(_signal, "SIG" + sig))
+        except ProcessLookupError:
+            pass
+        time.sleep(0.5)
+        for i in (1, 2):
+            (gates / f"gate.x{i}").touch()
+        try:
+            p.communicate(timeout=300)
+        except subprocess.TimeoutExpired:
+            p.kill()
+            return {"sig": sig, "problem": "the experiment does not finish after the signal"}
+        first = json.loads(cf.read_text()) if cf.exists() else {}
+        body = [json.loads(l) for l in log.read_text().splitlines() if l.strip()] if log.exists() else []
+        return {"sig": sig, "states": first.get("states"), "rc": p.returncode,
+                "bodies": {f"x{i}": [sum(1 for e in body if e["p"] == f"x{i}" and e["e"] == w) for w in ("begin", "end")] for i in (1, 2, 3)}}
+    finally:
+        subprocess.run(["pkill", "-9", "-f", str(root)], capture_output=True)
+        shutil.rmtree(root, ignore_errors=True)
